@@ -29,30 +29,19 @@ func (t scopedTri) Plane() geometry.Plane {
 	return *t.plane
 }
 
-// https://gdbooks.gitbooks.io/3dcollisions/content/Chapter4/point_in_triangle.html
+// pointInTriangle reports which side of each edge the point is on, measured
+// against the triangle's own normal. Comparing the normals of PBC, PCA and PAB
+// with each other instead accepts every point on the line through an edge,
+// where one of those normals is zero.
+func pointInTriangle(a, b, c, p vector3.Float64) bool {
+	n := b.Sub(a).Cross(c.Sub(a))
+	return b.Sub(a).Cross(p.Sub(a)).Dot(n) >= 0. &&
+		c.Sub(b).Cross(p.Sub(b)).Dot(n) >= 0. &&
+		a.Sub(c).Cross(p.Sub(c)).Dot(n) >= 0.
+}
+
 func (t scopedTri) PointInSide(p vector3.Float64) bool {
-	// Move the triangle so that the point becomes the
-	// triangles origin
-	a := t.data[t.p1].Sub(p)
-	b := t.data[t.p2].Sub(p)
-	c := t.data[t.p3].Sub(p)
-
-	// Compute the normal vectors for triangles:
-	// u = normal of PBC
-	// v = normal of PCA
-	// w = normal of PAB
-
-	u := b.Cross(c)
-	v := c.Cross(a)
-
-	// Test to see if the normals are facing
-	// the same direction, return false if not
-	if u.Dot(v) < 0. {
-		return false
-	}
-
-	w := a.Cross(b)
-	return u.Dot(w) >= 0.
+	return pointInTriangle(t.data[t.p1], t.data[t.p2], t.data[t.p3], p)
 }
 
 func (t scopedTri) ClosestPoint(p vector3.Float64) vector3.Float64 {
@@ -253,30 +242,13 @@ func (t Tri) RayIntersects(ray geometry.Ray) (vector3.Float64, bool) {
 	return ray.At(tVal), true
 }
 
-// https://gdbooks.gitbooks.io/3dcollisions/content/Chapter4/point_in_triangle.html
 func (t Tri) PointInSide(p vector3.Float64) bool {
-	// Move the triangle so that the point becomes the
-	// triangles origin
-	a := t.P1Vec3Attr(PositionAttribute).Sub(p)
-	b := t.P2Vec3Attr(PositionAttribute).Sub(p)
-	c := t.P3Vec3Attr(PositionAttribute).Sub(p)
-
-	// Compute the normal vectors for triangles:
-	// u = normal of PBC
-	// v = normal of PCA
-	// w = normal of PAB
-
-	u := b.Cross(c)
-	v := c.Cross(a)
-
-	// Test to see if the normals are facing
-	// the same direction, return false if not
-	if u.Dot(v) < 0. {
-		return false
-	}
-
-	w := a.Cross(b)
-	return u.Dot(w) >= 0.
+	return pointInTriangle(
+		t.P1Vec3Attr(PositionAttribute),
+		t.P2Vec3Attr(PositionAttribute),
+		t.P3Vec3Attr(PositionAttribute),
+		p,
+	)
 }
 
 func (t Tri) LineIntersects(line geometry.Line3D) (vector3.Float64, bool) {
